@@ -129,6 +129,15 @@ def main(tier):
             evs, k = dc.diff_events(rep, ddiff, ymp, True, units, max_span=2000)
             dexecs += evs
             nrun += k
+        # one operand as seconds since the epoch (the command-line one), the other in civil notation, before 1970 and beyond 2106 (where the
+        # seconds do not fit 32 bits): the printed units must still lead from the earlier to the later value
+        for cluster in ([((1950, 3, 5), 0), ((1969, 12, 31), 86399), ((1970, 1, 1), 0), ((1970, 1, 2), 3600), ((1938, 4, 24), 43200), ((1901, 12, 13), 72000)],
+                        [((2100, 1, 1), 0), ((2106, 2, 7), 23295), ((2106, 2, 7), 23296), ((2106, 2, 8), 0), ((2120, 5, 5), 82800), ((2038, 1, 19), 11647)]):
+            mp = [dc.point(ch, ch.ldn_of(*x), sod) for x, sod in cluster]
+            for units in (["S"], ["d", "S"], ["w", "d", "H", "M", "S"], ["H", "M", "S"]):      # down to the second: nothing is lost to truncation
+                evs, k = dc.diff_events(rep, ddiff, mp, True, units, max_span=24000 if units[0] in "SHM" else None, argfn=dc.epoch_text, tag=" (epoch operand)")
+                dexecs += evs
+                nrun += k
         cc.validate_and_report(rep, "DiffTrace", "DiffTrace.cfg", dexecs, lambda bad, ex: "ddiff year/month with time units %s: components do not lead from the earlier to the later value" % bad.get("fmt"),
                                "ddiff_ym_time", group=lambda ex: ex[0]["fmt"])
         rep.notes["tool_runs"] = nrun
